@@ -160,8 +160,11 @@ pub trait ToSymbol {
 
 impl<T: AsRef<str>> ToSymbol for T {
     fn to_symbol(&self) -> Symbol {
+        // Evaluate `as_ref` BEFORE taking the session lock: for a `Symbol` it takes that
+        // (non-reentrant) lock itself, so `sym.to_symbol()` would never return.
+        let text = self.as_ref();
         Symbol(with_session_globals(|session_globals| {
-            session_globals.symbol_interner.get_or_intern(self.as_ref())
+            session_globals.symbol_interner.get_or_intern(text)
         }))
     }
 }
